@@ -560,7 +560,10 @@ def make_machine(stats, box):
             return {'form': form, 'terms': [draw(term), draw(st.integers(min_value=0, max_value=4)), draw(small)],
                     'bop': draw(st.sampled_from(['>>', '<<', '&'])), 'op': draw(st.sampled_from(CMP))}
         if form == 'cmp':
-            return {'form': form, 'terms': [draw(term), draw(term)], 'op': draw(st.sampled_from(CMP)),
+            a = draw(term)
+            # boundary: both sides equal (decides between < and <=, > and >=) in a good share of the comparisons
+            b = a if draw(st.integers(0, 3)) == 0 else draw(term)
+            return {'form': form, 'terms': [a, b], 'op': draw(st.sampled_from(CMP)),
                     'quote': draw(st.sampled_from(['', '', '"', "'"]))}
         if form == 'bare':
             return {'form': form, 'terms': [draw(term)]}
